@@ -37,7 +37,7 @@ THOROUGH = [
     ("d1", [1008, 1009, 1012, 1015], ["conv_mc_cons", "conv_mc_non", "conv_sc_cons", "conv_sc_non", "gradnorm_fix", "gradnorm_nofix", "poly2", "poly3",
                                       "general_fix", "general_nofix", "cahn_hilliard", "gray_scott"]),
     ("d2", [2005, 2006, 2008], ["conv_mc_cons", "conv_mc_non", "conv_sc_cons", "conv_sc_non", "gradnorm_fix", "general_fix", "general_nofix", "vort2d", "leray", "poly2"]),
-    ("d2c", [2006], ["poly3", "cahn_hilliard", "gray_scott"]),
+    ("d2c", [2008], ["poly3", "cahn_hilliard"]),          # cubic terms: 1/2 dealiasing keeps modes <= 1 from N = 8 on
     ("d3", [3004, 3005], ["leray"]),
     ("d3b", [3006], ["rot3d", "conv_mc_non", "conv_mc_cons", "gradnorm_fix"]),
 ]
